@@ -24,6 +24,7 @@ import (
 
 	commontimeutil "github.com/lindb/common/pkg/timeutil"
 
+	"github.com/lindb/lindb/kv"
 	"github.com/lindb/lindb/models"
 	"github.com/lindb/lindb/pkg/option"
 	"github.com/lindb/lindb/pkg/timeutil"
@@ -304,8 +305,8 @@ func randomCase(c *core.Ctx, r *rand.Rand, i int) {
 			iv := randInterval(r, k)
 			opSlot(c, k, t, iv)
 			opType(c, iv)
-			if r.Intn(3) == 0 {
-				opSlotRange(c, r, k, t, iv)
+			if r.Intn(2) == 0 {
+				opSlotRange(c, r, t, iv)
 			}
 		}
 	case kind < 10:
@@ -320,11 +321,21 @@ func randomCase(c *core.Ctx, r *rand.Rand, i int) {
 		for j := 0; j < 16; j++ {
 			opRangeGlue(c, r)
 		}
-	case kind < 18:
+	case kind < 15:
 		c.Branch("stream/planner")
 		c.NonTrivial()
 		for j := 0; j < 16; j++ {
 			randomPlan(c, r)
+		}
+	case kind < 17:
+		c.Branch("stream/broker")
+		c.NonTrivial()
+		brokerCase(c, r)
+	case kind < 18:
+		c.Branch("stream/rollup")
+		c.NonTrivial()
+		for j := 0; j < 16; j++ {
+			opRollup(c, r)
 		}
 	case kind < 19:
 		c.Branch("stream/malformed")
@@ -343,14 +354,72 @@ func opType(c *core.Ctx, iv int64) {
 	})
 }
 
-func opSlotRange(c *core.Ctx, r *rand.Rand, k calcT, t, iv int64) {
+// opSlotRange emits Interval.CalcSlotRange for the family of t and a query range of one of several
+// shapes (wide, inside the family, one slot wide, a single point, planner-aligned, disjoint) and
+// checks C13 on the result: when the query range meets the family, Start/End are the slots of the
+// first / last requested timestamp inside the family (slot·interval within one interval below it).
+func opSlotRange(c *core.Ctx, r *rand.Rand, t, iv int64) {
 	// the calculator used by CalcSlotRange is the one of iv's own type
-	ft := timeutil.Interval(iv).Calculator().CalcFamilyTime(t)
-	qs := t - r.Int63n(2*day)
-	qe := t + r.Int63n(2*day)
+	calc := timeutil.Interval(iv).Calculator()
+	ft := calc.CalcFamilyTime(t)
+	fe := calc.CalcFamilyEndTime(ft)
+	var qs, qe int64
+	shape := r.Intn(7)
+	switch shape {
+	case 0: // wide
+		qs, qe = t-r.Int63n(2*day), t+r.Int63n(2*day)
+	case 1: // inside the family
+		qs = ft + r.Int63n(fe-ft+1)
+		qe = qs + r.Int63n(fe-qs+1)
+	case 2: // single point
+		qs, qe = t, t
+	case 3: // single point aligned to the interval (what the planner produces for a window inside one slot)
+		qs = timeutil.Truncate(t, iv)
+		qe = qs
+	case 4: // planner-aligned short range
+		qs = timeutil.Truncate(t, iv)
+		qe = timeutil.Truncate(t+int64(r.Intn(4))*iv, iv)
+	case 5: // one slot wide, unaligned
+		qs = t
+		qe = t + r.Int63n(iv)
+	default: // disjoint from the family (result unspecified by C13; correspondence only)
+		qs = fe + 1 + r.Int63n(day)
+		qe = qs + r.Int63n(day)
+	}
+	c.Branch(fmt.Sprintf("slotrange/shape-%d", shape))
+	opSlotRangeOf(c, iv, t, qs, qe)
+}
+
+// opSlotRangeOf: CalcSlotRange of the family of t (interval iv's own calculator) and [qs,qe].
+func opSlotRangeOf(c *core.Ctx, iv, t, qs, qe int64) {
+	calc := timeutil.Interval(iv).Calculator()
+	tn := typeName(timeutil.Interval(iv).Type())
+	ft := calc.CalcFamilyTime(t)
+	fe := calc.CalcFamilyEndTime(ft)
 	op := fmt.Sprintf("slotrange %d %d %d %d", iv, ft, qs, qe)
 	guarded(c, op, iv == 0, func() string {
 		sr := timeutil.Interval(iv).CalcSlotRange(ft, timeutil.TimeRange{Start: qs, End: qe})
+		lo, hi := qs, qe
+		if lo < ft {
+			lo = ft
+		}
+		if hi > fe {
+			hi = fe
+		}
+		if t >= 0 && iv > 0 && lo <= hi && (fe-ft)/iv < 65536 {
+			a, b := int64(sr.Start), int64(sr.End)
+			if !(ft+a*iv <= lo && lo < ft+(a+1)*iv && ft+b*iv <= hi && hi < ft+(b+1)*iv) {
+				key := "slot-range/" + tn
+				if lo == hi || a == b {
+					key = "slot-range-single/" + tn
+				}
+				c.Fail(key, fmt.Sprintf("CalcSlotRange(interval=%d, family=%d, [%d,%d]) = [%d,%d]: requested part of the family is [%d,%d], its first/last slots are [%d,%d]",
+					iv, ft, qs, qe, a, b, lo, hi, (lo-ft)/iv, (hi-ft)/iv))
+			}
+			if lo == hi {
+				c.Branch("slotrange/single-point")
+			}
+		}
 		return fmt.Sprintf("%d %d", sr.Start, sr.End)
 	})
 }
@@ -531,8 +600,15 @@ func randomPlan(c *core.Ctx, r *rand.Rand) {
 	default:
 		diff = r.Int63n(2 * hour)
 	}
+	if r.Intn(5) == 0 { // a window shorter than one storage slot: the planned range collapses to a point
+		diff = r.Int63n(ivs[0])
+	}
 	auto := r.Intn(4) == 0
-	opPlan(c, interval, start, start+diff, auto, ivs)
+	if ps, pe, st, ok := opPlan(c, interval, start, start+diff, auto, ivs); ok && st > 0 && r.Intn(2) == 0 {
+		// the slot range the storage side reads for the planned range, in the families of its start and end
+		opSlotRangeOf(c, st, ps, ps, pe)
+		opSlotRangeOf(c, st, pe, ps, pe)
+	}
 	switch r.Intn(4) {
 	case 0:
 		guarded(c, fmt.Sprintf("qi %d %d %d", start, start+diff, interval), false, func() string {
@@ -566,7 +642,7 @@ func randomPlan(c *core.Ctx, r *rand.Rand) {
 
 // opPlan runs the real calcTimeRangeAndInterval and checks the planner part of C13 on its result
 // when the option is valid (non-empty, positive intervals) and the range is non-negative.
-func opPlan(c *core.Ctx, interval, start, end int64, auto bool, ivs []int64) {
+func opPlan(c *core.Ctx, interval, start, end int64, auto bool, ivs []int64) (ps, pe, storage int64, ok bool) {
 	a := 0
 	if auto {
 		a = 1
@@ -613,10 +689,15 @@ func opPlan(c *core.Ctx, interval, start, end int64, auto bool, ivs []int64) {
 			if auto {
 				c.Branch("plan/auto-group-by-time")
 			}
+			if q.TimeRange.Start == q.TimeRange.End {
+				c.Branch("plan/range-collapsed-to-one-slot")
+			}
 			c.Branch("plan/storage-type-" + typeName(q.StorageInterval.Type()))
 		}
+		ps, pe, storage, ok = q.TimeRange.Start, q.TimeRange.End, s, valid && start >= 0 && end >= 0
 		return fmt.Sprintf("%d %d %d %d %d", q.TimeRange.Start, q.TimeRange.End, s, qi, ratio)
 	})
+	return ps, pe, storage, ok
 }
 
 // malformed: inputs on which the Go code panics (empty option, zero interval) or that are outside
@@ -641,4 +722,55 @@ func malformed(c *core.Ctx, r *rand.Rand) {
 	}
 	c.Branch("malformed/expected-panics")
 	_ = commontimeutil.OneDay
+}
+
+// ---------------------------------------------------------------- rollup relation
+
+// opRollup builds the rollup relation as kv's family.rollup does (target family time = the target
+// interval's CalcFamilyTime of the source family start) through kv.VerifNewRollup and checks C13's
+// slot statement on it: the target slot of a source timestamp is the target interval's slot of that
+// timestamp in the target family.
+func opRollup(c *core.Ctx, r *rand.Rand) {
+	pairs := [][2]int64{{10 * sec, 5 * min}, {10 * sec, hour}, {5 * min, hour}, {sec, 10 * min}, {30 * sec, 30 * min},
+		{min, 4 * hour}, {10 * sec, 7 * min}, {min, 45 * min}, {10 * sec, 90 * min}, {5 * min, 5 * hour}, {5 * min, day}, {10 * sec, min}}
+	p := pairs[r.Intn(len(pairs))]
+	src, tgt := p[0], p[1]
+	if r.Intn(8) == 0 {
+		src = 1 + r.Int63n(5*min-1)
+		tgt = src * int64(2+r.Intn(500))
+	}
+	t := randTimestamp(r)
+	srcCalc := timeutil.Interval(src).Calculator()
+	sft := srcCalc.CalcFamilyTime(t)
+	sfe := srcCalc.CalcFamilyEndTime(sft)
+	slot := r.Int63n((sfe-sft)/src + 1)
+	if slot > 65535 {
+		slot = 65535
+	}
+	op := fmt.Sprintf("rollup %d %d %d %d", src, tgt, sft, slot)
+	guarded(c, op, false, func() string {
+		tgtCalc := timeutil.Interval(tgt).Calculator()
+		// family.rollup: tSegmentTime / tFamilyTime / fSTime
+		tSeg := tgtCalc.CalcSegmentTime(sft)
+		tft := tgtCalc.CalcFamilyStartTime(tSeg, tgtCalc.CalcFamily(sft, tSeg))
+		ru := kv.VerifNewRollup(src, tgt, sft, tft)
+		ts := ru.GetTimestamp(uint16(slot))
+		tslot := int64(ru.CalcSlot(ts))
+		base := int64(ru.BaseSlot())
+		tfe := tgtCalc.CalcFamilyEndTime(tft)
+		if (tfe-tft)/tgt < 65536 {
+			if !(tft+tslot*tgt <= ts && ts < tft+(tslot+1)*tgt) {
+				c.Fail("rollup-slot/"+typeName(timeutil.Interval(tgt).Type()), fmt.Sprintf("rollup %d->%d source family %d target family %d: CalcSlot(%d)=%d, not the target slot of that timestamp (%d)", src, tgt, sft, tft, ts, tslot, (ts-tft)/tgt))
+			}
+			if !(tft+base*tgt <= sft && sft < tft+(base+1)*tgt) {
+				c.Fail("rollup-base-slot/"+typeName(timeutil.Interval(tgt).Type()), fmt.Sprintf("rollup %d->%d source family %d target family %d: BaseSlot=%d", src, tgt, sft, tft, base))
+			}
+		}
+		if tgt%src != 0 || (hour%tgt != 0 && tgt%hour != 0) {
+			c.Branch("rollup/irregular-pair")
+		} else {
+			c.Branch("rollup/regular-pair")
+		}
+		return fmt.Sprintf("%d %d %d %d %d", tft, ru.IntervalRatio(), base, ts, tslot)
+	})
 }
